@@ -366,69 +366,47 @@ Definition has_obs (c : tcase) (n : N) : bool := existsb (N.eqb n) (t_obs c).
 
 Definition has_spec (c : tcase) (n : N) : bool := existsb (N.eqb n) (t_specs c).
 
-Definition spec_ok (c : tcase) : bool :=
-  (if has_spec c 1 then spec_cache (w_cache (t_pre c)) (w_cache (t_post c)) else true) &&
-  (if has_spec c 12 then spec_cache_all (w_cache (t_post c)) else true) &&
-  (if has_spec c 2 then t_ok c && world_eqb (t_pre c) (t_post c) else true) &&
-  (if has_spec c 3 then
-     match t_ref c with Some r => t_ok c && spec_roundtrip r (t_post c) [] | None => true end
-   else true) &&
-  (if has_spec c 5 then negb (t_ok c) else true) &&
-  (if has_spec c 7 then (if t_ok c then spec_merkle (t_post c) else true) else true) &&
-  (if has_spec c 8 then cache_eqb (w_cache (t_pre c)) (w_cache (t_post c)) else true) &&
-  (if has_spec c 9 then stages_eqb (w_stages (t_pre c)) (w_stages (t_post c)) else true) &&
-  (if has_spec c 11 then t_ok c else true) &&
-  (if has_spec c 13 then negb (w_lock (t_post c)) else true) &&
-  (* C01: commit leaves the logical content of the workspace (links followed) unchanged *)
-  (if has_spec c 14 then
-     node_eqb (logical (w_cache (t_pre c)) (w_root (t_pre c))) (logical (w_cache (t_post c)) (w_root (t_post c)))
-   else true) &&
-  (* C06: every pre-existing entry is preserved (also when checkout fails) *)
-  (if has_spec c 4 then
-     preserved_b (w_cache (t_pre c))
+Definition spec_table (c : tcase) : list (N * bool) :=
+  [
+   (1, (spec_cache (w_cache (t_pre c)) (w_cache (t_post c))));
+   (12, (spec_cache_all (w_cache (t_post c))));
+   (2, (t_ok c && world_eqb (t_pre c) (t_post c)));
+   (3, (match t_ref c with Some r => t_ok c && spec_roundtrip r (t_post c) [] | None => true end));
+   (5, (negb (t_ok c)));
+   (7, ((if t_ok c then spec_merkle (t_post c) else true)));
+   (8, (cache_eqb (w_cache (t_pre c)) (w_cache (t_post c))));
+   (9, (stages_eqb (w_stages (t_pre c)) (w_stages (t_post c))));
+   (11, (t_ok c));
+   (13, (negb (w_lock (t_post c))));
+   (14, (node_eqb (logical (w_cache (t_pre c)) (w_root (t_pre c))) (logical (w_cache (t_post c)) (w_root (t_post c)))));
+   (4, (preserved_b (w_cache (t_pre c))
                  (match t_cmd c with CCheckout _ cp _ => cp | _ => false end)
-                 (Some (w_root (t_pre c))) (Some (w_root (t_post c)))
-   else true) &&
-  (* C05: status agrees with an independent diff of workspace and committed tree *)
-  (if has_spec c 6 then t_ok c && spec_status_truth (t_pre c) (t_out c) else true) &&
-  (* C07: inputs / skip-cache artifacts physically untouched *)
-  (if has_spec c 10 then spec_inputs_untouched (t_pre c) (t_post c) else true) &&
-  (* C18: nothing outside the project, the cache and the config directory changed *)
-  (if has_spec c 20 then negb (has_obs c 1) else true) &&
-  (* C13: the command terminated (the watchdog did not have to kill it) *)
-  (if has_spec c 24 then negb (has_obs c 3) else true) &&
-  (* C07: root tree physically unchanged *)
-  (if has_spec c 21 then node_eqb (w_root (t_pre c)) (w_root (t_post c)) else true) &&
-  (* C08: the execution log written by the stage commands themselves is valid *)
-  (if has_spec c 18 then
-     (if t_ok c then spec_valid_log (t_pre c) (fst (run_args c)) (snd (run_args c)) (run_log c) else true)
-   else true) &&
-  (* C09: outputs consistent with inputs after a successful recursive run *)
-  (if has_spec c 19 then
-     (if t_ok c then spec_consistent (t_sems c) (t_post c) (fst (run_args c)) else true)
-   else true) &&
-  (* C08: whatever the outcome, no command of a stage on a cycle was executed *)
-  (if has_spec c 23 then
-     match load_index (w_index (t_pre c)) (w_stages (t_pre c)) [] with
+                 (Some (w_root (t_pre c))) (Some (w_root (t_post c)))));
+   (6, (t_ok c && spec_status_truth (t_pre c) (t_out c)));
+   (10, (spec_inputs_untouched (t_pre c) (t_post c)));
+   (20, (negb (has_obs c 1)));
+   (24, (negb (has_obs c 3)));
+   (21, (node_eqb (w_root (t_pre c)) (w_root (t_post c))));
+   (18, ((if t_ok c then spec_valid_log (t_pre c) (fst (run_args c)) (snd (run_args c)) (run_log c) else true)));
+   (19, ((if t_ok c then spec_consistent (t_sems c) (t_post c) (fst (run_args c)) else true)));
+   (23, (match load_index (w_index (t_pre c)) (w_stages (t_pre c)) [] with
      | Some idx => forallb (fun s => negb (on_cycle idx s)) (run_log c)
      | None => true
-     end
-   else true) &&
-  (if has_spec c 22 then (if t_ok c then spec_quiet (t_pre c) (run_log c) else true) else true) &&
-  (* C15 mixed: a different command of the family after a success is a logical no-op *)
-  (if has_spec c 16 then
-     t_ok c && cache_eqb (w_cache (t_pre c)) (w_cache (t_post c)) &&
+     end));
+   (22, ((if t_ok c then spec_quiet (t_pre c) (run_log c) else true)));
+   (16, (t_ok c && cache_eqb (w_cache (t_pre c)) (w_cache (t_post c)) &&
      stages_eqb (w_stages (t_pre c)) (w_stages (t_post c)) &&
      list_eqb beqb (w_index (t_pre c)) (w_index (t_post c)) &&
-     node_eqb (logical (w_cache (t_pre c)) (w_root (t_pre c))) (logical (w_cache (t_post c)) (w_root (t_post c)))
-   else true) &&
-  (* C05: right after a successful commit or checkout everything is reported up-to-date *)
-  (if has_spec c 15 then
-     match t_out c with
+     node_eqb (logical (w_cache (t_pre c)) (w_root (t_pre c))) (logical (w_cache (t_post c)) (w_root (t_post c)))));
+   (15, (match t_out c with
      | OStatus l => forallb (fun s => ss_match (snd s) && forallb (fun a => all_cm (snd a)) (ss_arts (snd s))) l
      | _ => false
-     end
-   else true).
+     end))
+  ].
+
+Definition spec_fails (c : tcase) : list N :=
+  map fst (filter (fun e => has_spec c (fst e) && negb (snd e)) (spec_table c)).
+Definition spec_ok (c : tcase) : bool := match spec_fails c with [] => true | _ => false end.
 
 Definition corr_ok (c : tcase) : bool :=
   let '(w', ok, out) := step hexdigest (t_sems c) (t_pre c) (t_cmd c) in
@@ -445,8 +423,8 @@ Definition corr_ok (c : tcase) : bool :=
 Definition verdict (c : tcase) : N :=
   (if corr_ok c then 0 else 1) + (if spec_ok c then 0 else 2).
 
-Definition run_sys (cs : list tcase) : list (N * N) :=
-  filter (fun p => negb (snd p =? 0)) (map (fun c => (t_id c, verdict c)) cs).
+Definition run_sys (cs : list tcase) : list (N * N * list N) :=
+  filter (fun p => negb (snd (fst p) =? 0)) (map (fun c => (t_id c, verdict c, spec_fails c)) cs).
 
 (* debugging aid for replays: what differs *)
 Definition diff (c : tcase) : list N :=
@@ -457,3 +435,11 @@ Definition diff (c : tcase) : list N :=
   (if stages_eqb (w_stages w') (w_stages (t_post c)) then [] else [4]) ++
   (if list_eqb beqb (w_index w') (w_index (t_post c)) then [] else [5]) ++
   (if output_eqb out (t_out c) then [] else [6]).
+
+(* C15: `dud init` inside an initialised project: index, configuration, cache and everything else
+   are untouched (whether it refuses or not) *)
+Record icase := mkIC { i_id : N; i_pre : world; i_ok : bool; i_post : world; i_cfg_changed : bool }.
+Definition verdict_init (c : icase) : N :=
+  if world_eqb (i_pre c) (i_post c) && negb (i_cfg_changed c) then 0 else 2.
+Definition run_init (cs : list icase) : list (N * N) :=
+  filter (fun p => negb (snd p =? 0)) (map (fun c => (i_id c, verdict_init c)) cs).
